@@ -143,10 +143,10 @@ Expected(pre, a, post, ret) ==
     IN IF best # {} THEN CHOOSE o \in best : TRUE
        ELSE IF cands # {} THEN CHOOSE o \in cands : TRUE ELSE CHOOSE o \in all : TRUE
 
-RetOwner(op, tag) ==
+ErrTags == {"EntryTooLarge", "WouldEjectLru", "OccupiedEntry"}
+RetOwner(op, tag, tag2) ==
     CASE op \in {"insert", "try_insert"} ->
-            IF tag \in {"EntryTooLarge", "WouldEjectLru", "OccupiedEntry"} THEN {"C10"}
-            ELSE {"C04", "C10"}
+            IF tag \in ErrTags \/ tag2 \in ErrTags THEN {"C10"} ELSE {"C04"}
       [] op \in {"get", "get_entry", "peek", "peek_entry", "contains", "remove",
                  "remove_entry", "touch"} -> {"C04"}
       [] op \in {"get_lru", "peek_lru", "peek_mru", "remove_lru", "remove_mru", "debug"} -> {"C05"}
@@ -164,14 +164,19 @@ CallBad(pre, a, e, g, stl, lst) ==
         x    == StepOf(pre, a, e)
         o    == Expected(pre, a, post, e.ret)
         sameKeys == KeysOf(o.s.ord) = KeysOf(post.ord)
+        \* a different key set is a root cause; what depends on the content is only
+        \* compared when the content agrees, so that no consequence is reported as a
+        \* violation of a property that holds
+        sameContent == sameKeys /\ \A i \in DOMAIN post.ord :
+                           LET en == post.ord[i] IN EntOf(o.s, en.k).kh = en.kh /\ EntOf(o.s, en.k).vs = en.vs
         forgot == a.op \in IterKinds /\ a.fl
     IN
     \* 1. constructive operator vs. log
        {<<"C05", "order">>    : z \in {1} \cap (IF sameKeys /\ KeySeq(o.s.ord) # KeySeq(post.ord) THEN {1} ELSE {})}
     \cup {<<p, "keyset">>     : p \in IF sameKeys THEN {} ELSE
-                                  {"C04"} \cup (IF a.op \in EvictingOps THEN {"C03"} ELSE {})
-                                  \cup (IF a.op = "retain" THEN {"C15"} ELSE {})
-                                  \cup (IF a.op \in IterKinds THEN {"C12"} ELSE {})}
+                                  IF a.op \in EvictingOps THEN {"C03"}
+                                  ELSE IF a.op = "retain" THEN {"C15"}
+                                  ELSE IF a.op \in IterKinds THEN {"C12"} ELSE {"C04"}}
     \cup {<<p, "stored_sizes">> : p \in IF sameKeys /\ \E i \in DOMAIN post.ord :
                                            LET en == post.ord[i] IN
                                            \/ EntOf(o.s, en.k).kh # en.kh
@@ -181,24 +186,25 @@ CallBad(pre, a, e, g, stl, lst) ==
                                            EntOf(o.s, post.ord[i].k).rec # post.ord[i].rec
                                         THEN {"C02"} \cup (IF a.op = "mutate" THEN {"C11"} ELSE {})
                                         ELSE {}}
-    \cup {<<p, "current_size">> : p \in IF o.s.cur # post.cur
+    \cup {<<p, "current_size">> : p \in IF sameContent /\ o.s.cur # post.cur
                                        THEN {"C02"} \cup (IF a.op = "mutate" THEN {"C11"} ELSE {})
                                        ELSE {}}
     \cup {<<"C01", "max_size">>   : z \in IF o.s.max # post.max THEN {1} ELSE {}}
-    \cup {<<"C13", "geometry">>   : z \in IF post.alive /\ (o.s.b # post.b \/ o.s.t # post.t) THEN {1} ELSE {}}
+    \cup {<<"C13", "geometry">>   : z \in IF sameKeys /\ post.alive /\ (o.s.b # post.b \/ o.s.t # post.t) THEN {1} ELSE {}}
     \cup {<<p, "alive">>          : p \in IF o.s.alive # post.alive THEN {"C12"} ELSE {}}
-    \cup {<<p, "ret">>            : p \in IF o.ret # e.ret THEN RetOwner(a.op, o.ret.tag) ELSE {}}
-    \cup {<<p, "dropped">>        : p \in IF o.dropped # x.dropped
+    \cup {<<p, "ret">>            : p \in IF sameKeys /\ o.ret # e.ret
+                                         THEN RetOwner(a.op, o.ret.tag, e.ret.tag) ELSE {}}
+    \cup {<<p, "dropped">>        : p \in IF sameKeys /\ o.dropped # x.dropped
                                          THEN {"C06"} \cup (IF a.op \in IterKinds THEN {"C12"} ELSE {})
                                               \cup (IF a.op = "retain" THEN {"C15"} ELSE {})
                                               \cup (IF forgot THEN {"C17"} ELSE {})
                                          ELSE {}}
-    \cup {<<p, "handed">>         : p \in IF o.handed # x.handed
+    \cup {<<p, "handed">>         : p \in IF sameKeys /\ o.handed # x.handed
                                          THEN {"C06"} \cup (IF a.op \in IterKinds THEN {"C12"} ELSE {})
                                          ELSE {}}
-    \cup {<<p, "leaked">>         : p \in IF o.leaked # x.leaked
+    \cup {<<p, "leaked">>         : p \in IF sameKeys /\ o.leaked # x.leaked
                                          THEN {"C06"} \cup (IF forgot THEN {"C17"} ELSE {}) ELSE {}}
-    \cup {<<p, "fresh">>          : p \in IF post.alive /\ o.fresh # x.fresh THEN {"C06", "C04"} ELSE {}}
+    \cup {<<p, "fresh">>          : p \in IF sameKeys /\ post.alive /\ o.fresh # x.fresh THEN {"C06", "C04"} ELSE {}}
     \cup {<<"C20", "hashes">>     : z \in IF e.counts.hash > o.hashmax THEN {1} ELSE {}}
     \* 2. declarative properties on the logged step / state
     \cup {<<"C02", "C02_Step">>  : z \in IF C02_Step(pre, a, x) THEN {} ELSE {1}}
@@ -312,7 +318,9 @@ ForgetBad(pre, a, e) ==
 (* belongs to them and to no other property.                                *)
 Retaint(bad, tn) ==
     IF tn = "none" THEN bad
-    ELSE {IF pf[2] = "shrink_raises_with_tombstones" THEN pf    \* finding F5 stays with C13
+    ELSE {IF pf[2] \in {"shrink_raises_with_tombstones",         \* finding F5 stays with C13
+                       "C01_Bound"}                              \* C01 speaks of every call that returns
+          THEN pf
           ELSE <<IF tn = "forget" THEN "C17" ELSE "C16", pf[2]>> : pf \in bad}
 
 -----------------------------------------------------------------------------
@@ -401,7 +409,7 @@ CallStep(e) ==
         forgot  == a.op \in IterKinds /\ a.fl /\ ~crashed
         bad0 == IF forgot THEN ForgetBad(pre, a, e) ELSE IF crashed
                THEN (IF e.panic.kind = "unexpected"
-                     THEN {<<p, "unexpected_panic">> : p \in RetOwner(a.op, "")} ELSE {})
+                     THEN {<<p, "unexpected_panic">> : p \in RetOwner(a.op, "", "")} ELSE {})
                     \cup CrashBad(pre, a, e, stale[c])
                ELSE CallBad(pre, a, e, gh[c], stale[c], last[c])
                     \cup {<<"C13", "C13_GrowthBound">> : z \in
